@@ -12,6 +12,11 @@ use std::collections::BTreeMap;
 const LABEL_SESSION: u64 = 0x5345_5353;
 /// Session indices from here on are sweep sessions (see `plan_sweep`).
 pub const SWEEP_BASE: u64 = 1 << 40;
+/// Session indices in [MARATHON_BASE, SWEEP_BASE) are marathon sessions: ordinary sessions, but
+/// 70 000..80 000 requests long over a small working set, so that state which only matters after
+/// many expansions in one process (a 16-bit counter, a bounded cache that starts evicting) is
+/// reached and every input is re-delivered across that distance.
+pub const MARATHON_BASE: u64 = 1 << 39;
 
 pub const KINDS: &[&str] = &[
     "rekey",
@@ -214,7 +219,11 @@ pub fn plan_session(p: &SessionParams, pool: &Pool) -> (Plan, SessionMeta) {
         _ => {}
     }
     let workers = sched.range(1, 4);
-    let length = sched.range(p.min_steps, p.max_steps.max(p.min_steps));
+    let length = if p.idx >= MARATHON_BASE {
+        sched.range(70_000, 80_000)
+    } else {
+        sched.range(p.min_steps, p.max_steps.max(p.min_steps))
+    };
     // the working set belongs to the twin pair, so its size and mix come from the client stream
     let ws_size = client.range(8, 256);
     let corpus_share = *client.pick(&[10usize, 30, 60]);
